@@ -345,7 +345,7 @@ func cmdCheck(args []string) int {
 			if *only != "" && hd.name != *only {
 				continue
 			}
-			h := &HarnessRun{Name: hd.name, fn: hd.fn, cfg: hd.cfg, prog: pr, known: known}
+			h := &HarnessRun{Name: hd.name, fn: hd.fn, cfg: hd.cfg, prog: pr, known: known, tier: *tier}
 			w := *workers
 			h.explore(w)
 			runs = append(runs, h)
